@@ -216,6 +216,34 @@ class CHECK(Check):
                     res.violation(f'plan-eq-not-symmetric|{type(o).__name__}', f'{text!r}')
         except Exception as e:
             res.violation(f'plan-eq-crash|{exc_sig(e)}', f'{text!r}: {e!r}')
+        # equal plans print the same: a plan against its variants (last step dropped, a step appended, two steps swapped, one step replaced)
+        variants = []
+        if plan.steps:
+            v = copy.deepcopy(plan)
+            del v.steps[-1]
+            variants.append(('prefix', v))
+            v = copy.deepcopy(plan)
+            v.steps.append(copy.deepcopy(plan.steps[0]))
+            variants.append(('extended', v))
+            v = copy.deepcopy(plan)
+            v.steps[-1] = copy.deepcopy(plan.steps[0])
+            variants.append(('last-replaced', v))
+        if len(plan.steps) >= 2:
+            v = copy.deepcopy(plan)
+            v.steps[0], v.steps[-1] = v.steps[-1], v.steps[0]
+            variants.append(('swapped', v))
+        for vk, v in variants:
+            try:
+                a, b = (plan == v), (v == plan)
+            except Exception as e:
+                res.violation(f'plan-eq-crash|{exc_sig(e)}', f'{text!r}: comparing a plan with its {vk} variant raised {e!r}')
+                continue
+            if a not in (True, False) or b not in (True, False):
+                res.violation(f'plan-eq-not-boolean|variant-{vk}', f'{text!r}: {a!r}/{b!r}')
+            elif a != b:
+                res.violation(f'plan-eq-not-symmetric|variant-{vk}', f'{text!r}: plan == {vk} variant is {a}, the converse is {b}')
+            elif a is True and repr(plan.steps) != repr(v.steps):
+                res.violation(f'equal-plans-print-differently|variant-{vk}', f'{text!r}: a plan compares equal to its {vk} variant:\n    {plan.steps}\n    {v.steps}')
         for s, s2 in zip(plan.steps, plan2.steps):
             try:
                 if (s == s) is not True:
